@@ -292,6 +292,13 @@ def run(chk):
         roots = ["CAVRD", "CASSLG", "CQQ"]
         al = [gen.mutate(rng, rng.choice(roots), "ACDEQ", rng.randint(0, 2)) or "C" for _ in range(n)]
         be = [gen.mutate(rng, rng.choice(roots), "ACDEQ", rng.randint(0, 2)) or "C" for _ in range(n)]
+        if t == 5:
+            # every run: chains whose content "shifts" across the pair (the summed chain distance is NOT the edit distance of a joined string)
+            al = ["CQQQ", "C", "CQQQ", "CAVRD", "CAVR"]
+            be = ["C", "QQQC", "CW", "CASS", "DCASS"]
+            n = 5
+        if t == 1:
+            al, be, n = ["CAVRD", "CAVRE", "CASSLG", "CQQ", "CQQA"], ["CASSLG", "CASSLG", "CQQ", "CAVRD", "CAVRDEE"], 5
         metav = [rng.choice("xy") for _ in range(n)]
         ca, cb = rng.choice([("cdr3a", "cdr3b"), ("alpha_seq", "second"), ("A", "B"), (0, 1), (1, 0)]) if t >= 2 else ((0, 1), (1, 0))[t]
         df = pd.DataFrame({ca: al, cb: be, "meta": metav, "other": [rng.choice("pq") for _ in range(n)]}, index=rng.sample(range(100), n))
@@ -324,6 +331,13 @@ def run(chk):
         if rng.random() < 0.5 and t not in (0, 4):
             tcut, crit = rng.choice([(2, "distance"), (3, "distance"), (2, "maxclust"), (4, "distance")])
             kws["cluster_kws"] = dict(t=tcut, criterion=crit)
+        if t == 1:
+            # every run: PARTIAL option dicts - what the caller gives replaces the documented default dict as a whole
+            # (SciPy's own defaults apply to what is left out: no optimal ordering, criterion "inconsistent")
+            method = "complete"
+            kws["linkage_kws"] = dict(method="complete")
+            kws["cluster_kws"] = dict(t=0.9)
+            tcut, crit = 0.9, "inconsistent"
         real = core.call_real(lambda: pl.similarity_clustermap(df, **kws))
         meta = {"alpha": al, "beta": be, "single": single, "kwargs": {k: str(v) for k, v in kws.items()}}
         chk.case(sample=meta if t == 0 else None, nontrivial_key=("clustermap", tuple(al), tuple(be), single))
